@@ -641,20 +641,27 @@ def text_shapes_stream(ctx, res):
     s.sub.path = cc.StringField()
     s.names = cc.ListField(cc.StringField(), default=lambda: [])
     s.any = cc.Field()
-    for text in ["caf\udce9.conf", "\udcff", "a\ud800b", "tail\udc80", "\x00nul", "\x7f\x1f", "\u2028line", "\ufeffbom", "\uffff"]:
+    for text in ["caf\udce9.conf", "\udcff", "a\ud800b", "tail\udc80", "\x00nul", "\x7f\x1f", "\u2028line", "\ufeffbom", "\uffff", "first\x85second", "\x85", "nbsp\xa0x", "zero\u200bwidth", "\u2029para", "e\u0301", "\U0001f600"]:
         cfg = s()
         cfg.name = text
         cfg.sub.path = text + "/x"
         cfg.names = [text, "plain"]
         cfg.any = {"k": [text]}
         want = cfg.to_tree()
-        for fmt in ("json", "pickle"):
-            for opts in ({}, {"pretty": True}) if fmt == "json" else ({},):
+        encodable = True
+        try:
+            text.encode("utf-8")
+        except UnicodeEncodeError:
+            encodable = False
+        # text that IS Unicode goes through every format that can carry it on the unchanged code (XML has no control characters)
+        fmts = ["json", "pickle"] + (["yaml", "bson"] if encodable else []) + (["xml"] if encodable and all(ord(ch) >= 0x20 and ch not in "\x7f\x85\u2028\ufeff\uffff" for ch in text) else [])
+        for fmt in fmts:
+            for opts in ({}, {"pretty": True}) if fmt == "json" else ({}, {"root_key": "APP"}) if fmt == "yaml" else ({},):
                 case = {"stream": "text-shapes", "text": F.enc_val(text), "fmt": fmt, "options": opts}
                 res.case(stable(case), kind="text-shapes:text:" + fmt)
                 fresh = s()
                 try:
-                    fresh.loads(cfg.dumps(format=fmt, **opts), format=fmt)
+                    fresh.loads(cfg.dumps(format=fmt, **opts), format=fmt, **({k: v for k, v in opts.items() if k != "pretty"}))
                     got = fresh.to_tree()
                 except Exception as e:  # noqa
                     got = "raised %s: %s" % (type(e).__name__, str(e)[:80])
